@@ -324,13 +324,32 @@ fn w_live(ctx: &mut Ctx) {
         }
         // phase 0: the state left by the solve above; phase 1: the same solver asked to solve again with
         // max_iter = 0, i.e. the identity-scaling KKT system that default_start assembles over the old state
-        for phase in 0..2usize {
+        // phase 2 (a third of the cases): fault injection - a NaN is written into A through update_A, a solve
+        // fails on it (failed factorisation path), A is repaired and the solver is used again
+        let nphases = if case % 3 == 0 && p.A.nnz() > 0 { 3usize } else { 2usize };
+        for phase in 0..nphases {
         if phase == 1 {
             solver.settings.max_iter = 0;
             if problem::solve_observed(&mut solver).is_err() {
                 break;
             }
             ctx.bump("live_resolve_identity_scaling_snapshots");
+        }
+        if phase == 2 {
+            let mut poisoned = p.A.nzval.clone();
+            let k = rng.usize(0, poisoned.len() - 1);
+            poisoned[k] = f64::NAN;
+            solver.settings.max_iter = st.max_iter;
+            if solver.update_A(&poisoned).is_err() || problem::solve_observed(&mut solver).is_err() {
+                ctx.bump("live_fault_injection_refused_or_panicked");
+                break;
+            }
+            let failed_status = solver.solution.status;
+            if solver.update_A(&p.A.nzval).is_err() || problem::solve_observed(&mut solver).is_err() {
+                ctx.bump("live_fault_injection_refused_or_panicked");
+                break;
+            }
+            ctx.bump(&format!("live_snapshots_after_failed_solve_{}", problem::status_name(failed_status)));
         }
         let snap = solver.kktsystem.verif_snapshot();
         ctx.eval(1);
@@ -504,7 +523,11 @@ fn w_live(ctx: &mut Ctx) {
             ctx.bump("live_with_sparse_expansion");
         }
         if let Some((o, d)) = fail {
-            let o = if phase == 1 { format!("{o}:after_resolve") } else { o };
+            let o = match phase {
+                1 => format!("{o}:after_resolve"),
+                2 => format!("{o}:after_failed_solve"),
+                _ => o,
+            };
             ctx.violation(&o, &o, wl, case, detail(d));
         }
         if case < 2 && phase == 0 {
